@@ -244,9 +244,6 @@ def parse_textregion(text_region_dict: dict,
         if child == 'TextLine':
             text_region.lines = parse_textline_list(text_region_dict['TextLine'], custom_tags)
             text_region.set_as_parent(text_region.lines)
-            located_lines = [line for line in text_region.lines if line.coords is not None]
-            if not text_region.coords and located_lines:
-                text_region.coords = parse_derived_coords(located_lines)
         if child == 'TextRegion':
             text_region.text_regions = []
             if isinstance(text_region_dict['TextRegion'], list) is False:
@@ -255,10 +252,12 @@ def parse_textregion(text_region_dict: dict,
                 if tr is not None:
                     text_region.text_regions.append(tr)
             text_region.set_as_parent(text_region.text_regions)
-            # sub-regions may have been skipped, or have no coordinates themselves
-            located_regions = [tr for tr in text_region.text_regions if tr.coords is not None]
-            if not text_region.coords and located_regions:
-                text_region.coords = parse_derived_coords(located_regions)
+    if not text_region.coords:
+        # derive the coordinates from ALL children that have some (sub-regions may have been
+        # skipped or have no coordinates themselves), in the order add_child uses
+        located = [doc for doc in text_region.text_regions + text_region.lines if doc.coords is not None]
+        if located:
+            text_region.coords = parse_derived_coords(located)
     if text_region.coords is None:
         stats = text_region.stats
         if sum([stats[field] for field in stats]) == 0:
